@@ -19,6 +19,12 @@ SEEDS_WI = [
     "invalid_start: 'del' NUMBER { foo() }\ninvalid_x: NAME NAME { foo() }\n",
     "start: a NEWLINE\na: b_without_invalid NAME | invalid_x | NUMBER\nb_without_invalid: (invalid_x | NUMBER)* ','\n"
     "invalid_x: NUMBER NUMBER { foo() }\n",
+    # NESTED *_without_invalid rules (a recursive one that calls another one): the mode must be saved per invocation
+    "start: a NEWLINE | invalid_start NEWLINE\na: op_without_invalid tail\n"
+    "op_without_invalid: '(' ~ op_without_invalid ')' | item_without_invalid\nitem_without_invalid: NAME | invalid_x\n"
+    "tail: e=invalid_tail { e } | ';'\ninvalid_tail: '!' { foo() }\ninvalid_x: NUMBER { foo() }\ninvalid_start: NAME NAME { foo() }\n",
+    "start: b_without_invalid c NEWLINE\nb_without_invalid: NAME b_without_invalid | NUMBER | invalid_x\n"
+    "c: invalid_x | ','\ninvalid_x: ';' { foo() }\n",
 ]
 
 
@@ -111,7 +117,8 @@ def run(chk: common.Check, tier: str):
                 "distinct by (grammar, input, mode)")
     texts = list(dict.fromkeys(grammars(tier)))
     nin = 30 if tier == "quick" else 150
-    inputs_for = lambda t: A.inputs_upto(A.alphabet(t) + ["del"], 3, nin)
+    deep = ["( x ) !\n", "( ( x ) ) !\n", "( ( x ) ) ;\n", "x !\n", "( 1 ) !\n", "( x !\n", "x x 1 ;\n", "x x 1 ,\n", "x ; ;\n", "1 ;\n"]
+    inputs_for = lambda t: A.inputs_upto(A.alphabet(t) + ["del"], 3, nin) + (deep if t in SEEDS_WI[2:] else [])
     off = rm.krun(chk, "C12", texts, inputs_for, configs=("q1",), call_invalid=False)
     d = common.GEN / "C12"
     (d / "Instances.v").write_text(
